@@ -94,11 +94,13 @@ def _agreement(ctx: Ctx):
     warnings.simplefilter("ignore")
     rng = ctx.fork("agree")
     for i in range(ctx.n(120, 2500)):
-        frame = M.gen_frame(rng, nmax=8, pnull=rng.choice([0, 0.15]), cat_dtypes=("object", "str"))
+        frame = M.gen_frame(rng, nmax=8, pnull=rng.choice([0, 0.15]), cat_dtypes=("object", "str", "category"))
         terms = M.dedupe(M.gen_terms(rng, missing_p=0.0))
         f = M.formula_string(terms)
         if rng.random() < 0.25:
-            f += " + " + rng.choice(["center(a)", "poly(b, 2)", "C(A, contr.sum)", "np.log(c*c + 1)", "a:C(B, contr.helmert)"])
+            f += " + " + rng.choice(["center(a)", "poly(b, 2)", "C(A, contr.sum)", "np.log(c*c + 1)", "a:C(B, contr.helmert)", "C(A)", "C(G)",
+                                     "C(A, contr.diff(backward=False))", "C(G, contr.helmert(reverse=False, scale=True))", "C(B, contr.SAS):a",
+                                     "C(G, contr.poly)", "C(A, contr.treatment(base='y'))" if 'y' in set(frame.cat['A']) else "C(A, contr.diff)"])
         efr = rng.random() < 0.6
         na = rng.choice(["drop", "drop", "ignore"])
         df = frame.to_pandas()
